@@ -8,7 +8,7 @@
     for every registry state and every description that [type_build] accepts. *)
 From Coq Require Import List NArith Bool String.
 From PyxisModel Require Import Base Grammar SemTypes Registry Sem RustLayout LayoutLemmas SemLemmas
-     PlacementLemmas WholeBuild Examples.
+     PlacementLemmas WholeBuild Examples Sexp Emit EmitReaders EmitShape EmitFinal EmitLayout.
 Import ListNotations.
 Local Open Scope N_scope.
 
@@ -83,3 +83,49 @@ Print Assumptions C01_whole_build.
 Theorem C01_u8_always : forall ptr mods st0, input_state ptr mods = Ok st0 -> reg_u8 (st_reg st0).
 Proof. exact input_state_u8. Qed.
 Print Assumptions C01_u8_always.
+
+(** ** The EMITTED struct (EmitReaders.v, EmitShape.v, EmitFinal.v, EmitFind.v, EmitLayout.v).  For every
+    struct an input declares, in every accepted [collision_free] build whose files the model writes:
+    the file of its module contains the struct item (found by name), shaped as [struct_shape] says --
+    one field per region, in order, with the region's name, type tokens, visibility and docs, the
+    [repr(C, align(A))] / [repr(C, packed)] attribute, the derive list --, followed by the size check
+    whose literal is the resolved size; and the Reference layout computed FROM THAT EMITTED ITEM
+    ([emitted_struct_layout]: its field list and its repr attribute, with the final registry's sizes of
+    the field types) gives the struct the resolved size and alignment and puts every declared named
+    field at its declared address.  Extra hypotheses: module paths pairwise distinct ([add_module]
+    replaces a module of the same path), the item is not in the root module (which gets no file), and
+    the schedule never returns the empty list for a non-empty one (every permutation does not). *)
+Theorem C01_emitted_struct : forall order ptr mods st0 st files p it0 gd td0,
+  input_state ptr mods = Ok st0 -> NoDup (map fst mods) -> collision_free (st_reg st0) ->
+  keeps_work order ->
+  pyxis_resolve order ptr mods = BOk st -> write_all st = Ok files ->
+  reg_get (st_reg st0) p = Some it0 -> it_state it0 = Unresolved gd -> gi_inner gd = GIType td0 ->
+  path_parent p <> Some [] ->
+  exists parent name it r td f pre s checks rest post efs noffs,
+    (* the item, resolved, in the final registry *)
+    path_parent p = Some parent /\ path_last p = Some name /\
+    reg_get (st_reg st) p = Some it /\ it_state it = Resolved r /\ rs_inner r = IType td /\
+    (* the file of its module holds the struct item, then its size check, then impls *)
+    In (out_path parent, f) files /\
+    file_items f = Some (pre ++ (s :: checks ++ rest) ++ post) /\
+    find_struct name (pre ++ (s :: checks ++ rest) ++ post) = Some s /\
+    struct_shape name (rs_align r) (it_vis it0) td s /\
+    size_check_shape name (rs_size r) checks /\
+    Forall is_impl_or_const rest /\
+    (* the layout computed from the emitted struct *)
+    let R := st_reg st in
+    let tys := map r_type (td_regions td) in
+    struct_fields s = Some efs /\ map ef_ty efs = map type_tokens tys /\
+    emitted_struct_layout (map (type_sa R) tys) s = Some (noffs, rs_size r, rs_align r) /\
+    map fst noffs = map ef_name efs /\
+    (* every declared named field that is kept is at its declared offset *)
+    exists R_mid module n pending vfs start,
+      ext (st_reg st0) (st_reg st0) R_mid /\ ext (st_reg st0) R_mid R /\
+      foldM (process_statement R_mid (module_scope module)) (gt_stmts td0) (O, ([], None))
+        = Ok (n, (pending, vfs)) /\
+      (start = 0 \/ (start = reg_ptr R /\
+                     exists ty, hd_error (td_regions td) = Some (vftable_region_of (TConstPtr ty)))) /\
+      Forall (fun x => forall nm, r_name (snd x) = Some nm -> In (nm, fst x) noffs)
+             (declared_offsets R start pending).
+Proof. exact emitted_struct_whole_build. Qed.
+Print Assumptions C01_emitted_struct.
